@@ -14,6 +14,12 @@ package handlers
 //@   ensures [exec_bit_restored] err == nil && asPtr(output.Kind, "*gen.Output_File").File.IsExecutable ==> has(fsExec, DEST())
 
 // C14: "every declared output exists afterwards"; C07: the digest handed to the CAS is the digest of the bytes streamed
+// C14 / C13: the hash of a file output that skips the cache is the digest of the file as it is - a declared output that
+// was not created is an error here too (this is the only existence check on the no-cache path)
+//@ func (*FileOutputHandler).Hash(f, ctx, target, output) (h, err)
+//@   ensures [missing_output_is_error] !has(fsIsFile, pathJoin(config.Global.WorkspaceRoot, pathJoin(target.Label.Package, output.Identifier))) ==> err != nil
+//@   ensures [digest_of_the_file_as_it_is] err == nil ==> h == H(select(fsData, pathJoin(config.Global.WorkspaceRoot, pathJoin(target.Label.Package, output.Identifier))))
+
 //@ func (*FileOutputHandler).Write(f, ctx, target, output, tracker) (r, err)
 //@   requires [memo_sound] forall d string :: {has(casMemo, d)} has(casMemo, d) ==> has(bstored, "cas/" + d)
 //@   ensures [missing_output_is_error] !has(fsIsFile, pathJoin(config.Global.WorkspaceRoot, pathJoin(target.Label.Package, output.Identifier))) ==> err != nil
